@@ -287,3 +287,20 @@ def constructor_block(prop="C04"):
     c.ensures("the_same_named_generic_interface_becomes_the_constructor_and_takes_the_accessibility_of_the_type", post)
     c.no_raise = True
     return c
+
+
+def correlate_keeps_accessibility(prop="C04", replay=None):
+    """accessibility is settled when a scope has been parsed (process_attribs): FortranCodeUnit.correlate, which pairs the implementation of a separate module procedure with its
+    interface and copies attributes between them, assigns no `permission`.  (An implementation lives in its submodule, whose entities are private; the interface in the ancestor
+    module carries the accessibility of the name.)"""
+    fn = loader.find_def("ford.sourceform", "FortranCodeUnit.correlate")
+    bad = [(n.lineno, ast.unparse(n)[:80]) for n in ast.walk(fn) if isinstance(n, (ast.Assign, ast.AugAssign, ast.AnnAssign))
+           for t in (n.targets if isinstance(n, ast.Assign) else [n.target]) if isinstance(t, ast.Attribute) and t.attr in ("permission", "_permission")]
+    r = OR(id=f"{prop}.S.FortranCodeUnit.correlate.assigns_no_accessibility", status=REFUTED if bad else PROVED, kind="S", role="frame", backend="ast", target="ford.sourceform.FortranCodeUnit.correlate",
+           desc="no statement of FortranCodeUnit.correlate (helpers included) assigns `permission`: cross-referencing does not change what the declarations and access statements said")
+    if bad:
+        r.witness = {"sites": bad}
+        r.detail = f"line {bad[0][0]}: `{bad[0][1]}` changes an entity's accessibility during correlation"
+        if replay:
+            r.replay = replay()
+    return [r]
